@@ -87,6 +87,15 @@ def loopy_limitation(stage: str, exc: BaseException | None, detail: str,
         if pre is not None and ctarget.subst_arity_consistent(pre) \
                 and not ctarget.subst_arity_consistent(bp.program):
             return "loopy:substitution-rules-merged-across-arity"
+    if bp is not None and stage in ("loopy-preprocess", "loopy-schedule", "loopy-codegen", "gcc"):
+        # ... or two rules whose bodies are Python-equal but differ in a constant's dtype
+        from vf.exec import ctarget
+        pre = getattr(bp, "vf_pre_t_unit", None)
+        try:
+            if pre is not None and ctarget.subst_rules_merged_across_dtype(pre, bp.program):
+                return "loopy:substitution-rules-merged-across-constant-dtype"
+        except Exception:  # noqa: BLE001
+            pass
     return None
 
 
@@ -146,7 +155,7 @@ def run_program(spec: dict[str, Any], col: common.Collector, *, variant: bool = 
                       f"{str(f.exc)[:200] if f.exc else f.detail[-300:]}", wit)
         return None
     col.count("mon.programs_generated")
-    tb_sig = trusted_base_signatures(bp.program)
+    tb_sig = trusted_base_signatures(bp.program, bp)
     knl = cp.kernel
     col.histo("kernel_insns", str(min(len(knl.instructions), 40) // 5 * 5))
     result: dict[str, Any] = {"outputs": {}, "cp": cp, "bp": bp}
@@ -355,12 +364,19 @@ def gcc_error_class(detail: str) -> str:
     return msg[:60]
 
 
-def trusted_base_signatures(t_unit: Any) -> set[str]:
+def trusted_base_signatures(t_unit: Any, bp: Any = None) -> set[str]:
     """Constructs in the kernel that loopy's C printer is known to mistranslate.
     Only used to attribute a binary-vs-NumPy disagreement when the kernel-level
     interpreter agrees with NumPy."""
     import pymbolic.primitives as p
     sigs: set[str] = set()
+    if bp is not None and getattr(bp, "vf_pre_t_unit", None) is not None:
+        from vf.exec import ctarget
+        try:
+            if ctarget.subst_rules_merged_across_dtype(bp.vf_pre_t_unit, t_unit):
+                sigs.add("loopy:substitution-rules-merged-across-constant-dtype")
+        except Exception:  # noqa: BLE001
+            pass
 
     def walk(e: Any, parent: Any = None) -> None:
         if isinstance(e, (p.BitwiseAnd, p.BitwiseOr, p.BitwiseXor)) and \
